@@ -30,7 +30,9 @@ DoSlice == Part \in {"all", "slice"}
 ---------------------------------------------------------------------------
 (* value sets *)
 Ks(b) == {k \in 0..(b - 2) : k < 2 \/ k > b - 4 \/ k % KStep = 0 \/ k \in {22, 23, 24, 25, 52, 53, 54}}
-B(f)  == IF IsFloat(f) THEN FloatBoundary(FmtOf(f)) ELSE IntBoundary(f, Ks(Bits(f)))
+\* ... plus the extreme values of the format (round 4; Frames.tla EdgeValues: MAX - d, MIN + d for d around the float
+\* precision of the companion, floats: +-largest finite) -- the identities are claimed on EVERY value
+B(f)  == (IF IsFloat(f) THEN FloatBoundary(FmtOf(f)) ELSE IntBoundary(f, Ks(Bits(f)))) \cup EdgeValues(f)
 
 Shift(f) == Bits(SignedOf(f)) - Bits(f)          \* an offset of 2^Shift(f) in the Signed format is one unit of f
 Offsets(f) ==   \* amplitudes in SignedOf(f)
@@ -113,7 +115,7 @@ AllTaken ==
 
 ---------------------------------------------------------------------------
 (* C03: invariants on the sample cases *)
-FltOf(f) == FmtOf(FloatOf(f))
+\* (FltOf, FitsMantissa: Frames.tla)
 
 \* offset 0 = identity.  Integers: exactly.  Floats: adding -0.0 is the bit-exact identity; adding +0.0 is
 \* the bit-exact identity except on -0.0, which becomes +0.0 (equal as a value)
@@ -138,17 +140,37 @@ Scale0 == last.op = "laws" => Scale0At(cs.f, cs.s)
 \* (i32 u32 / f32, i64 u64 / f64), wherever the operation is defined (the float image is < 1.0):
 \*   |result - s| <= half a unit in the last place of the float image, scaled by 2^(bits-1)
 \*                <= 2^(bits - p - 2)          (64 for i32/u32, 512 for i64/u64)
-FitsMantissa(f) == IsFloat(f) \/ Bits(f) <= FltOf(f).p
+\* Where it is NOT defined (round 4) the float image of s is exactly +1.0 -- s is one of the top values, within that same
+\* precision of MAX --, and the property still speaks: the claim is the relation MulAmpOk of Frames.tla.
 Scale1At(f, s) ==
   LET F == FltOf(f) one == FOne(F) r == MulAmp(f, s, one) IN
   IF FitsMantissa(f) THEN MulAmpDefined(f, s, one) /\ r = s
-  ELSE MulAmpDefined(f, s, one) =>
-         LET x == Conv(f, FloatOf(f), s)
+  ELSE IF MulAmpDefined(f, s, one)
+    THEN LET x == Conv(f, FloatOf(f), s)
              d == SAbs(SSub(r, s))
          IN /\ InRange(f, r)
             /\ DLe(DScale2(DFromS(d), 1), DScale2(Ulp(F, x), Bits(f) - 1))
-            /\ SLe(d, SPow2(Bits(f) - F.p - 2))
+            /\ SLe(d, SPow2(Bits(f) - F.p - 2)) /\ SPow2(Bits(f) - F.p - 2) = UnitySlack(f)
+            /\ MulAmpOk(f, s, one, r)
+    ELSE /\ Conv(f, FloatOf(f), s) = one /\ MulAmpProduct(f, s, one) = one
+         /\ SLe(SSub(MaxV(f), s), UnitySlack(f))
 Scale1 == last.op = "laws" => Scale1At(cs.f, cs.s)
+\* the relation claimed for the gain 1.0 holds of the saturating float -> integer conversion (what `as` does) on EVERY
+\* value, and the saturating route is the function MulAmp wherever that is defined
+UnitySat == (last.op = "laws" /\ ~IsFloat(cs.f)) =>
+              LET one == FOne(FltOf(cs.f)) IN
+              /\ MulAmpClaimed(cs.f, cs.s, one)
+              /\ MulAmpOk(cs.f, cs.s, one, MulAmpSat(cs.f, cs.s, one))
+              /\ (MulAmpDefined(cs.f, cs.s, one) => MulAmpSat(cs.f, cs.s, one) = MulAmp(cs.f, cs.s, one))
+\* ... and it is not vacuous: every format that does not fit has boundary values whose image is +1.0, a value on which
+\* the bound is attained (the rounding tie), and a conversion that wraps around to MIN at the top is refused
+ASSUME UnitySharp ==
+  \A f \in Formats : ~FitsMantissa(f) =>
+     LET one == FOne(FltOf(f)) IN
+     /\ \E s \in B(f) : ~MulAmpDefined(f, s, one) /\ s # MaxV(f)
+     /\ \E s \in B(f) : MulAmpDefined(f, s, one) /\ SAbs(SSub(MulAmp(f, s, one), s)) = UnitySlack(f)
+     /\ MulAmpOk(f, MaxV(f), one, MaxV(f)) /\ ~MulAmpOk(f, MaxV(f), one, MinV(f))
+     /\ \A s \in TopEdge(f) : ~MulAmpDefined(f, s, one) => ~MulAmpOk(f, s, one, MinV(f)) /\ ~MulAmpOk(f, s, one, Equil(f))
 \* ... and the "iff": each format that does not fit has boundary values that scale 1.0 does change
 ASSUME Scale1Sharp ==
   \A f \in Formats : ~FitsMantissa(f) =>
@@ -390,6 +412,26 @@ FrameExecs(f) ==
   \o ExecsOf("frame", "f_channel", UNION { { [ev |-> "f_channel", a |-> [fmt |-> f, n |-> n, x |-> FJ(f, Rot(w, r, NW(n))), i |-> i, v |-> SJ(f, w[2])]]
                                       : r \in {0, 3}, i \in (-1)..(NW(n) + 1) } : n \in FrameWidths })
 
+\* round 4: the IDENTITY operations (scale by 1.0, multiply by the all-ones frame, offset by 0, add the zero frame) on
+\* frames of EXTREME values: MAX, the last value whose float image is +1.0 and the first below it (MAX - 2, MAX - 3 where
+\* the format fits the mantissa), MIN, MAX - 1, MIN + that distance; floats: +-largest finite, largest below 1.0, -1.0,
+\* 1.0, smallest subnormal.  Rotations over widths 0..4, every pair for width 2.
+EdgeD(f, i) == IF FitsMantissa(f) THEN SFromInt(i + 1) ELSE SSub(SAdd(UnitySlack(f), SFromInt(i)), SFromInt(2))   \* i = 1, 2
+WEdge(f) == IF IsFloat(f)
+              THEN LET F == FmtOf(f) IN << FMaxFinite(F, 0), FMaxFinite(F, 1), Fld(0, F.bias - 1, FMantAllOnes(F)),
+                                           FPow2(F, 1, 0), FOne(F), Fld(1, 0, << 1 >>) >>
+              ELSE << MaxV(f), SSub(MaxV(f), EdgeD(f, 1)), SSub(MaxV(f), EdgeD(f, 2)), MinV(f),
+                      SSub(MaxV(f), SOne), SAdd(MinV(f), EdgeD(f, 1)) >>
+ZeroOf(f, sgn) == IF IsFloat(f) THEN FZeroF(sgn) ELSE SZero
+IdentityExecs(f) ==
+  LET sf == SignedOf(f) ff == FloatOf(f) w == WEdge(f) IN
+  ExecsOf("frame", "identity",
+    UNION { UNION { { [ev |-> "f_scale",  a |-> [fmt |-> f, n |-> n, x |-> FJ(f, x), amp |-> SJ(ff, FOne(FltOf(f)))]],
+                      [ev |-> "f_mul",    a |-> [fmt |-> f, n |-> n, x |-> FJ(f, x), y |-> FJ(ff, [ch \in 1..NW(n) |-> FOne(FltOf(f))])]],
+                      [ev |-> "f_offset", a |-> [fmt |-> f, n |-> n, x |-> FJ(f, x), amp |-> SJ(sf, ZeroOf(sf, 0))]],
+                      [ev |-> "f_add",    a |-> [fmt |-> f, n |-> n, x |-> FJ(f, x), y |-> FJ(sf, [ch \in 1..NW(n) |-> ZeroOf(sf, ch % 2)])]] }
+                    : x \in Contents(w, n) } : n \in FrameWidths })
+
 \* slices: contents are distinct small values (the conversions never look at them)
 SmallVal(f, k) == IF IsFloat(f) THEN Rne(FmtOf(f), DScale2(DFromInt(k), -12))
                   ELSE SAdd(EquilI(f), SFromInt(IF Bits(f) = 8 THEN k % 120 ELSE k))       \* (stays inside 8-bit formats)
@@ -426,11 +468,28 @@ InPlaceExecs(f) ==
                   : op \in {"zip_map", "write", "add", "add_amp"}, n \in 0..3 })
      \o SetToSeq({ Exec("slice", "inplace", { mk(op, n, la, 0) : la \in 0..MaxL }) : op \in {"equilibrium", "map"}, n \in 0..3 })
 
+\* round 4: the in-place additions as IDENTITIES on extreme values: add the zero slice; add-with-gain 1.0 per channel
+\* of the zero slice; add-with-gain 1.0 of a slice of extreme Signed amplitudes onto a slice at equilibrium (the scaled
+\* amplitude b * 1.0 is where the top values of i32 / i64 meet the float image +1.0: Frames.tla AddMulOk)
+EdgeInPlaceExecs(f) ==
+  LET sf == SignedOf(f) af == FloatOf(sf)
+      edge(g, n, l, r) == [i \in 1..l |-> Rot(WEdge(g), r + i, n)]
+      zeros(n, l)      == [i \in 1..l |-> [ch \in 1..n |-> ZeroOf(sf, (i + ch) % 2)]]
+      eqs(n, l)        == [i \in 1..l |-> [ch \in 1..n |-> Equil(f)]]
+      mk(op, n, l, xa, xb) == [ev |-> "inplace", a |-> [fmt |-> f, n |-> n, op |-> op, la |-> l, lb |-> l,
+                                  xa |-> FFJ(f, xa), xb |-> FFJ(sf, xb), ys |-> FFJ(f, xa),
+                                  ampf |-> FJ(af, [ch \in 1..NW(n) |-> FOne(FmtOf(af))])]]
+  IN SetToSeq({ Exec("slice", "inplace_edge",
+                     UNION { { mk("add", n, l, edge(f, NW(n), l, r), zeros(NW(n), l)),
+                               mk("add_amp", n, l, edge(f, NW(n), l, r), zeros(NW(n), l)),
+                               mk("add_amp", n, l, eqs(NW(n), l), edge(sf, NW(n), l, r)) } : l \in 1..2, r \in {0, 3} })
+                : n \in 0..3 })
+
 \* (an operator with a parameter, and the ASSUME written inline: TLC evaluates every constant-level definition
 \* WITHOUT parameters once per worker at start-up, which would build the whole stimuli set four times over)
 StimuliOf(part) ==
-     (IF part \in {"all", "frame"} THEN Concat([j \in 1..Len(FmtSeq) |-> SampleExecs(FmtSeq[j]) \o FrameExecs(FmtSeq[j])]) ELSE << >>)
-  \o (IF part \in {"all", "slice"} THEN Concat([j \in 1..Len(FmtSeq) |-> SliceExecs(FmtSeq[j]) \o InPlaceExecs(FmtSeq[j])]) ELSE << >>)
+     (IF part \in {"all", "frame"} THEN Concat([j \in 1..Len(FmtSeq) |-> SampleExecs(FmtSeq[j]) \o FrameExecs(FmtSeq[j]) \o IdentityExecs(FmtSeq[j])]) ELSE << >>)
+  \o (IF part \in {"all", "slice"} THEN Concat([j \in 1..Len(FmtSeq) |-> SliceExecs(FmtSeq[j]) \o InPlaceExecs(FmtSeq[j]) \o EdgeInPlaceExecs(FmtSeq[j])]) ELSE << >>)
 SumLen(ss) == FoldSeq(LAMBDA e, acc : acc + Len(e) - 1, 0, ss)            \* events, resets not counted (iterative: thousands of executions)
 ASSUME IF "STIM_OUT" \in DOMAIN IOEnv
          THEN LET st == StimuliOf(Part) IN
